@@ -19,7 +19,7 @@
 void lemma_step(void)
 {
   QXmppRosterManagerPrivate dd; QXmppRosterManager m; QXmppRosterManager *self = &m;
-  g_j = nondet_qstr(); g_b = nondet_qstr(); g_r = nondet_qstr(); gh_cfg_jidBare = nondet_qstr(); gh_sm_state = nondet_int();
+  g_j = nondet_qstr(); g_b = nondet_qstr(); g_r = nondet_qstr(); gh_cfg_jidBare = nondet_qstr(); gh_cfg_domain = nondet_qstr(); gh_cfg_user = nondet_qstr(); gh_cfg_jid = nondet_qstr(); gh_sm_state = nondet_int();
   gh_authenticated = nondet_bool(); gh_roster_task = nondet_int();
   dd.entries.w_present = nondet_bool(); dd.entries.w_value = nondet_qitem();
   dd.presences.w_outer = nondet_bool(); dd.presences.w.w_present = nondet_bool(); dd.presences.w.w_value = nondet_qpres();
